@@ -159,7 +159,19 @@ def run_differential(prog, script, fail: Callable[[str, Optional[str]], None], c
                 if not ahead["built"]:
                     setup(si)
                     try:
-                        drv.top_block(seg)
+                        if pending_sub is not None:
+                            ahead["mid"] = ahead.get("mid", 0) + 1
+                        if pending_sub is not None and len(seg) >= 2 and ahead["mid"] % 2 == 1:
+                            # a subroutine compiled earlier is committed in the MIDDLE of queueing this segment's operations
+                            half = len(seg) // 2
+                            drv.top_block(seg[:half])
+                            conn.commit_subroutine(pending_sub)
+                            pending_sub = None
+                            ahead["late"] = ahead.get("late", 0) + 1
+                            count("late_commits_between_queued_operations", 1)
+                            drv.top_block(seg[half:])
+                        else:
+                            drv.top_block(seg)
                     except hc.ControllerFault:
                         raise
                     except Exception as e:
